@@ -21,7 +21,8 @@ RULE = (
     "cases are arrival patterns of up to 12 calls on a 1/8-second grid (bursts, steady streams, gaps around the period "
     "boundary), limit 1..4, period in {0.5,1,2.5} as float/int/timedelta, wrapped coroutine duration 0..3 periods and "
     "outcome value/exception; thorough also enumerates all patterns of <=4 calls on a coarse grid; non-trivial = some "
-    "window of length period contains at least limit+1 arrivals; distinct = distinct pattern+configuration"
+    "window of length period contains at least limit+1 arrivals; patterns also start at non-round absolute loop times; "
+    "distinct = distinct pattern+configuration"
 )
 LEVEL_TEXT = (
     "Validity predicates over exact virtual start times: no half-open period window with more than limit starts, starts "
